@@ -6,6 +6,7 @@ package chunked
 
 import (
 	"encoding/binary"
+	"time"
 
 	"github.com/netflix/rend/common"
 	"github.com/netflix/rend/zz_verif/model"
@@ -228,6 +229,14 @@ func zzNewWorld(kl, nkeys, lenset int) *zzWorld {
 	w := &zzWorld{}
 	w.now = rt.I64("now")
 	rt.Assume(rt.And(w.now >= 1700000000, w.now < 1<<31))
+	shift := int64(0)
+	if !rt.Symbolic() {
+		// native replay: the handler reads the real clock, so the backend model must too;
+		// stored deadlines keep their distance from "now"
+		real := time.Now().Unix()
+		shift = real - w.now
+		w.now = real
+	}
 	rt.ClockSet(w.now)
 	rt.ClockFreeze(true) // A1: one instant per command
 	rt.RandDistinct(true) // A2: tokens drawn from crypto/rand are pairwise distinct
@@ -249,7 +258,10 @@ func zzNewWorld(kl, nkeys, lenset int) *zzWorld {
 			fl := rt.U32(n + ".flags")
 			tok := rt.Bytes(n+".tok", tokenSize)
 			dl := rt.I64(n + ".deadline")
-			rt.Assume(rt.Or(dl == 0, rt.And(dl > w.now, dl < 1<<32)))
+			rt.Assume(rt.Or(dl == 0, rt.And(dl > w.now-shift, dl < 1<<32)))
+			if dl != 0 {
+				dl += shift
+			}
 			zzStore(w.mc, key, v0, fl, tok, dl)
 			w.ref.E[i] = model.Entry{Present: true, Data: v0, Flags: fl, Deadline: dl}
 		}
